@@ -68,6 +68,11 @@ CHECKS = {
         technique='TLA+ model of the io.write / io.read step sequence with every fault point (IOWrite.tla), model-checked by TLC against the stream contract; every behaviour replayed against the real helpers with instrumented stream doubles raising at the chosen call; recorded event logs validated by StreamTrace.tla',
         text='TLC enumerates every arrangement (output as factory or open stream; map as none, factory, open stream or the same argument; one node, list, generator) x every fault point (factory call, k-th write for every k, unparser raising midway, map factory, writelines, map write; for read: factory, read(), parse error) and checks the modelled step sequence against the contract; each behaviour is replayed against the real code for several programs, printers and absolute/relative names; TLC judges every recorded log: factory streams closed exactly once, passed-in streams never closed, no use after close, the injected failure propagates (syntax errors re-labelled with the stream name), and on success output text, sourceMappingURL and map content equal what the lower-level API yields.',
         note='Faults are exceptions raised by the doubles; close() itself never fails; content facts are computed by the harness from the lower-level API (sourcemap.write, verify_write_sourcemap_args, encode_sourcemap).'),
+    'C19': dict(
+        category='exploration', design_ref='5 (C19)',
+        technique='model-based test generation: JSON values enumerated by TLC from the generator JsonValue.tla per theme (all number spellings, all string escapes, key kinds, nesting), spelled and replayed into ast_to_dict; json.loads of the spelled text is the expected value',
+        text='Every value the generator derives within the bounds (nodes, depth, width) for four themes x {var, assignment, nested in a function} x {fold_ops off, on}; the extracted dictionary must equal exactly {name: JSON value} with type-exact comparison.  TLC only enumerates here; the claim is exhaustive exploration of the bounded value space, not a proof about the Python function.',
+        note='json.loads is the oracle for the spelled literal; the sign of an integer zero is not compared; spellings are the JSON-compatible ones.'),
 }
 
 NOT_YET = {}
